@@ -1,6 +1,7 @@
 package checks
 
 import (
+	"encoding/base64"
 	"fmt"
 	"math"
 	"runtime"
@@ -270,6 +271,76 @@ admin_api { listen 127.0.0.3:0 }
 		}
 	}
 	c12RateMoving(c, dir)
+	c12Publish(c, dir)
+}
+
+// c12Publish: size limits on the Admin publish path, single and batch form,
+// batches spanning routes with different limits in every order: 413 iff some
+// item exceeds the limits of ITS OWN route, and then nothing is stored.
+func c12Publish(c *vlib.Ctx, dir string) {
+	type lim struct{ body, hdr int }
+	limits := map[string]lim{"/small": {16, 96}, "/mid": {64, 256}, "/big": {512, 2048}}
+	cfg := "ingress { listen 127.0.0.1:0 }\npull_api { listen 127.0.0.2:0\n auth token raw:tok }\nadmin_api { listen 127.0.0.3:0 }\n"
+	for _, rt := range []string{"/small", "/mid", "/big"} {
+		cfg += fmt.Sprintf("%s { queue { backend %%[1]s }\n max_body %d\n max_headers %d\n pull { path /pull%s } }\n", rt, limits[rt].body, limits[rt].hdr, rt)
+	}
+	n := c.N(60, 1500)
+	for _, be := range []string{"memory", "sqlite"} {
+		a, err := l2.Start(dir, fmt.Sprintf(cfg, be), nil, nil)
+		if err != nil {
+			c.Inconclusive("C12 publish config did not start: " + err.Error())
+			return
+		}
+		for i := 0; i < n; i++ {
+			r := vlib.Derive(c.Seed, "C12publish", be, i)
+			k := r.Range(1, 4)
+			var items []map[string]any
+			var over []string
+			for j := 0; j < k; j++ {
+				rt := vlib.Pick(r, []string{"/small", "/mid", "/big"})
+				l := limits[rt]
+				size := vlib.Pick(r, []int{0, 1, l.body - 1, l.body, l.body + 1, l.body * 2, 17, 65})
+				it := map[string]any{"id": fmt.Sprintf("pb-%s-%d-%d", be, i, j), "route": rt, "payload_b64": base64.StdEncoding.EncodeToString(make([]byte, size))}
+				hdrOver := false
+				if r.Chance(0.3) {
+					hv := l.hdr / 4
+					if r.Chance(0.4) {
+						hv, hdrOver = l.hdr*2, true
+					}
+					it["headers"] = map[string]string{"X-Fill": strings.Repeat("h", hv)}
+				}
+				if size > l.body || hdrOver {
+					over = append(over, fmt.Sprintf("item %d on %s (%d bytes, headers over=%v)", j, rt, size, hdrOver))
+				}
+				items = append(items, it)
+			}
+			before := snapStore(a.Store)
+			req := l2.JSONReq("POST", a.Compiled.AdminAPI.Prefix+"/messages/publish", map[string]any{"items": items}, "")
+			req.Header.Set("X-Hookaido-Audit-Reason", "verif")
+			resp := l2.Do(a.Admin, req)
+			after := snapStore(a.Store)
+			add, rem, chg := vlib.Diff(before, after)
+			c.Count("evaluations", 1)
+			c.Count("publish_size_probes", 1)
+			c.Distinct("nontrivial", fmt.Sprintf("publish_size:%s:items=%d:over=%d:%d", be, k, minInt(len(over), 2), resp.Status))
+			wit := map[string]any{"backend": be, "items": items, "status": resp.Status, "response": string(resp.Body[:minInt(240, len(resp.Body))]), "over_limit": over}
+			switch {
+			case len(over) > 0 && resp.Status != 413:
+				c.Violation(vlib.Signature{"class": "oversize_publish_not_refused", "status": fmt.Sprint(resp.Status), "form": map[bool]string{true: "batch", false: "single"}[k > 1]},
+					fmt.Sprintf("publish answered %d although %s exceeds its route's limits", resp.Status, over[0]), wit)
+			case len(over) == 0 && resp.Status != 200:
+				c.Violation(vlib.Signature{"class": "valid_publish_refused", "status": fmt.Sprint(resp.Status), "form": map[bool]string{true: "batch", false: "single"}[k > 1]},
+					fmt.Sprintf("publish of %d items within their routes' limits answered %d: %s", k, resp.Status, string(resp.Body[:minInt(160, len(resp.Body))])), wit)
+			}
+			if resp.Status != 200 && len(add)+len(rem)+len(chg) > 0 {
+				c.Violation(vlib.Signature{"class": "refused_publish_changed_queue", "status": fmt.Sprint(resp.Status)}, fmt.Sprintf("publish answered %d but the queue changed: added %v", resp.Status, add), wit)
+			}
+			if resp.Status == 200 && len(add) != k {
+				c.Violation(vlib.Signature{"class": "accepted_publish_not_all_stored"}, fmt.Sprintf("publish of %d items answered 200 but %d were stored", k, len(add)), wit)
+			}
+		}
+		a.Close()
+	}
 }
 
 // c12RateMoving: request goroutines race with a clock that keeps moving, so the
